@@ -163,8 +163,8 @@ func (t *Tokenizer) Reset() {
 	// Don't reset keywords as they're constant
 	t.logger = nil
 
-	// Preserve Comments slice capacity but reset length
-	if cap(t.Comments) > 0 {
-		t.Comments = t.Comments[:0]
-	}
+	// Comments is handed to the caller (exported field): start a new slice instead
+	// of reusing the backing array, which would overwrite the comments a caller
+	// still holds from the previous Tokenize call.
+	t.Comments = nil
 }
